@@ -29,6 +29,31 @@ Theorem C09_bounded :
        <= 1 + newer_than m (st_hist (final_unb (init keys) ops)))%nat.
 Proof. intros A. exact (@bounded A). Qed.
 
+(** What is retained, at full strength (what must NOT change as well): in every reachable state the retained history is
+    a suffix of the unlimited history — the same entries in the same order with the same payloads; it is empty only if
+    nothing was published; nothing at all is discarded while some consumer has not pulled yet; and every discarded
+    publication is strictly older than the oldest retained one, which itself is at or before the slowest consumer's last
+    request (so nothing a consumer may still request — a time at or after its last request — is ever discarded). *)
+Theorem C09_retained_is_newest_suffix :
+  forall (A : Type) (keys : list nat) (ops : list (op A)),
+    valid (init keys) ops ->
+    exists pre,
+      st_hist (final_unb (init keys) ops) = pre ++ st_hist (final (init keys) ops)
+      /\ (st_hist (final_unb (init keys) ops) <> [] -> st_hist (final (init keys) ops) <> [])
+      /\ (conn_min (st_conn (final (init keys) ops)) = None -> pre = [])
+      /\ (forall m, conn_min (st_conn (final (init keys) ops)) = Some m ->
+            pre <> [] ->
+            exists t0 d0 r, st_hist (final (init keys) ops) = (t0, d0) :: r /\ t0 <= m
+                            /\ forall e, In e pre -> fst e < t0).
+Proof. intros A. exact (@retained_suffix A). Qed.
+
+(** The bookkeeping of who requested what last is that of the unlimited output. *)
+Theorem C09_requests_recorded :
+  forall (A : Type) (keys : list nat) (ops : list (op A)),
+    valid (init keys) ops ->
+    st_conn (final (init keys) ops) = st_conn (final_unb (init keys) ops).
+Proof. intros A. exact (@conn_same A). Qed.
+
 (** The hypothesis "non-decreasing request times per consumer" is what the driver's own consumers satisfy: in the
     scheduler model (FV.Sched) the time that reaches the source over a link of pass-through adapters and fixed delays
     ([pe_chain], proved equal to the real pull in Trace_proofs.pull_chain_stateless) at the j-th update of a
@@ -67,7 +92,16 @@ Example C09_nonvacuous :
       (Some (Ok 2), 2); (None, 3); (Some (Ok 2), 2); (Some (Ok 3), 2); (Some (Ok 3), 1)]%nat.
 Proof. split; [|vm_compute; reflexivity]. simpl. unfold pull_ok. simpl. repeat split; auto with zarith. Qed.
 
+(** Non-vacuity of the suffix theorem: on [ex_ops] two publications have been discarded and both consumers have pulled. *)
+Example C09_suffix_nonvacuous :
+  st_hist (final_unb (init [1; 2]%nat) ex_ops) = [(0, 0%nat); (10, 1%nat); (20, 2%nat)] ++ st_hist (final (init [1; 2]%nat) ex_ops)
+  /\ st_hist (final (init [1; 2]%nat) ex_ops) = [(35, 3%nat)]
+  /\ conn_min (st_conn (final (init [1; 2]%nat) ex_ops)) = Some 35.
+Proof. vm_compute. repeat split. Qed.
+
 Print Assumptions C09_refines_unbounded.
 Print Assumptions C09_bounded.
 Print Assumptions C09_driver_requests_nondecreasing.
 Print Assumptions C09_driver_blocks_monotone.
+Print Assumptions C09_retained_is_newest_suffix.
+Print Assumptions C09_requests_recorded.
